@@ -127,6 +127,11 @@ func c06wire(c *Check, rng *rand.Rand) {
 			if !bytesEq(EncodeReq(r.Args...), r.Raw) {
 				c.Violate(Violation{Class: "fragment-not-canonical", Shape: shape, Detail: "fragment on the wire is not canonical RESP: " + Q(r.Raw), Witness: wit})
 			}
+			if len(r.Args) < 2 {
+				c.Violate(Violation{Class: "fragment-empty", Shape: shape, Detail: "fragment without keys: " + Q(r.Raw), Witness: wit})
+				bad = true
+				break
+			}
 			s := KeySlot(r.Args[1])
 			want := ref[s]
 			if used[s] || len(want) != len(r.Args)-1 {
@@ -162,15 +167,23 @@ func c06wire(c *Check, rng *rand.Rand) {
 // proxy with a small request size limit (every request is below it, the burst is
 // above it); fragments are attributed by token and compared with the reference split.
 func c06burst(c *Check, rng *rand.Rand) {
-	env, err := NewEnv(EnvOpt{Masters: 6, Cfg: ProxyCfg{MsgMax: 400}})
+	// slots 16000..16383 have no owner: a request touching them is answered with an error
+	// and must not leave a single fragment at any node
+	env, err := NewEnv(EnvOpt{Masters: 6, Cfg: ProxyCfg{MsgMax: 400}, Topo: func(cl *Cluster) *Topo {
+		t := EvenTopo(cl, 6, 0)
+		r := t.Nodes[5].Slots[0]
+		t.Nodes[5].Slots[0] = [2]int{r[0], 15999}
+		return t
+	}})
 	must(err, "start env")
 	defer env.Close()
 	type mreq struct {
-		kind string
-		tok  string
-		keys [][]byte
-		vals [][]byte
-		raw  []byte
+		kind     string
+		tok      string
+		keys     [][]byte
+		vals     [][]byte
+		raw      []byte
+		unrouted bool
 	}
 	gen := func() *mreq {
 		m := &mreq{kind: []string{"mget", "del", "mset"}[rng.Intn(3)], tok: newToken("u")}
@@ -178,7 +191,14 @@ func c06burst(c *Check, rng *rand.Rand) {
 		for j := 0; j < nk; j++ {
 			k := m.tok + ":" + itoa(j)
 			if rng.Intn(3) == 0 {
-				k = "{" + SlotTag(rng.Intn(16384)) + "}" + k
+				k = "{" + SlotTag(rng.Intn(16000)) + "}" + k
+			}
+			for KeySlot([]byte(k)) >= 16000 {
+				k += "x"
+			}
+			if j > 0 && rng.Intn(12) == 0 {
+				k = "{" + SlotTag(16000+rng.Intn(384)) + "}" + k // unowned slot
+				m.unrouted = true
 			}
 			m.keys = append(m.keys, []byte(k))
 			m.vals = append(m.vals, []byte("v"+itoa(j)))
@@ -247,12 +267,23 @@ func c06burst(c *Check, rng *rand.Rand) {
 			bad := ""
 			used := map[int]bool{}
 			var frs []string
+			if m.unrouted {
+				ref = map[int][][]byte{} // nothing may be forwarded
+			}
 			for _, r := range log {
 				if !containsTok(r, m.tok+":") {
 					continue
 				}
 				nfr++
 				frs = append(frs, Q(r.Raw))
+				if m.unrouted {
+					bad = "request with a key in an unowned slot left a fragment at a node: " + Q(r.Raw)
+					break
+				}
+				if len(r.Args) < 2 {
+					bad = "fragment without keys: " + Q(r.Raw)
+					break
+				}
 				sl := KeySlot(r.Args[1])
 				want := ref[sl]
 				if r.Cmd != m.kind || used[sl] || len(want) != len(r.Args)-1 {
